@@ -178,12 +178,15 @@ def drive(modname, funcname, cases, extra=None, procs=NCPU, chunk=200):
 
 # ---------------------------------------------------------- known findings
 def load_known(prop):
-    p = ROOT / "known_findings.json"
-    if not p.exists():
-        return []
-    data = json.loads(p.read_text())
-    return [f for f in data.get("findings", [])
-            if f["property"] == prop and f.get("status") == "open"]
+    files = [ROOT / "known_findings.json"] + sorted((ROOT / "known_findings.d").glob("*.json"))
+    res = []
+    for p in files:
+        if not p.exists():
+            continue
+        data = json.loads(p.read_text())
+        res += [f for f in data.get("findings", [])
+                if f["property"] == prop and f.get("status") == "open"]
+    return res
 
 
 def sig_key(sig):
